@@ -4,7 +4,7 @@ from ..cfg import CFG
 from ..harness import where
 from ..loops import lift
 from ..mirutil import Tracer, call_matches, callee_name, const_value, field_path
-from ..pairloops import PairLoops, positions_frames
+from ..pairloops import positions_frames
 from ..sym import NUM, SYM
 from ..terms import Norm, NotNumeric
 from fractions import Fraction
@@ -28,7 +28,8 @@ def run(ctx):
     if not rep.check(b is not None, 'R1', 'anchor:PotentialState::score', ADT, 'found', 'LJ State::score not found', 'anchor-lost'):
         return
     rep.saw(b)
-    pl = PairLoops(f, b, 'Potential', 'energy')
+    from ..pairs import PairNests
+    pl = PairNests(f, b, 'Potential', 'energy')
     b = pl.b            # the nest form of the score function
     cfg, tr = pl.cfg, pl.tr
     # ---- R1 sign and normalisation ---------------------------------------------------------
@@ -146,10 +147,12 @@ def run(ctx):
     rep.check(okt, 'R2', 'in-cell-pairs-once', where(b, tri['bb']) if tri else where(b),
               'in-cell: each unordered pair {i<j} exactly once', 'the in-cell energy loop is not enumerate x skip(index+1): %s c=%s'
               % ((tri or {}).get('why'), (tri or {}).get('c')))
-    okp = per is not None and not per['why'] and per['zero'] is False
+    from .C14 import excludes_identity
+    zs = [excludes_identity(ctx, z) for z in (per or {}).get('zero_values', [])]
+    okp = per is not None and not per['why'] and bool(zs) and all(z is True for z in zs)
     rep.check(okp, 'R2', 'periodic-pairs-full-ordered-product', where(b, per['bb']) if per else where(b),
               'periodic: all ordered (i,j) x all images n != 0', 'the periodic energy loop is not the full ordered product without the '
-              'identity image: %s zero=%s' % ((per or {}).get('why'), (per or {}).get('zero')))
+              'identity image: %s untranslated image excluded=%s' % ((per or {}).get('why'), zs))
     if 'triangular' in weights and 'periodic' in weights and okt and okp:
         wt, wp = weights['triangular'][0], weights['periodic'][0]
         rep.check(wp * 2 == wt and wt != 0, 'R2', 'PotentialState::score/periodic-accumulation', where(b, weights['periodic'][1], weights['periodic'][2]),
@@ -161,8 +164,8 @@ def run(ctx):
     else:
         rep.fail('R2', 'weights-identified', where(b), 'could not attribute the accumulation sites to the two loop nests: %s' % list(weights),
                  'undecidable-shape')
-    if per and per.get('shells') is not None:
-        rep.sample('periodic image range: shells = %s (sufficiency for the cutoff is not decided)' % per['shells'])
+    if per and per.get('shell_values'):
+        rep.sample('periodic image range: shells = %s (sufficiency for the cutoff is not decided)' % [str(v[1]) for v in per['shell_values']])
     # ---- R3 frames ---------------------------------------------------------------------------------
     probs = positions_frames(f, ADT)
     rep.check(not probs, 'R3', 'placements-are-cartesian', ADT, 'both operands of every energy() are Cartesian placements of the shape',
